@@ -37,6 +37,7 @@ PROP = dict(
                  "assignment where the source is the target itself or a part of it (a = a, a = a.at(0)) is left open by the statement and not generated",
                  "the outcome of parsing the texts that precede a round trip in `after_reject` (accept or throw a std::exception) is not asserted here; C05 owns the parser's error behaviour"],
     min_evaluations_quick=200000,
+    min_per_check_quick={"assign": 20000, "after_reject": 20000},
     engine="rapidcheck + exhaustive enumerators + Hypothesis (Python json as independent reader)",
     technique=("property-based round-trip testing: value trees built through the public constructors are serialized under all 64 option "
                "masks by the real code (ASan+UBSan), parsed back and compared with an independent model tree through the public accessors; "
